@@ -29,6 +29,23 @@ CLAIMED = {
         "(oracle), SciPy's solvers (event model), floating-point norm. Known finding: Krylov with "
         "maxit=0 reports success (KNOWN_FINDINGS.txt).",
    technique='Lean 4 invariant over the cycle loop / event fold + trace correspondence; independent residual oracle'),
+ 'C11': dict(
+   text="Proof (Lean 4) about the collection model PMap: for EVERY completion order of the tasks "
+        "(hence any worker count and scheduling) the order-preserving collector returns "
+        "inputs.map f (slot i = result of task i) and two runs agree; an as_completed-style "
+        "collector provably would not; the task list is the source-frequency product without "
+        "repetition and every slot receives the result of its own task; exchange-file names are "
+        "injective for names without '_' (collision with '_' proved and recorded as known finding). "
+        "Tie to code: real process_map under adversarial task latencies, 1..16 workers, with and "
+        "without tqdm, observed completion orders fed to the model; real simulations (tasks of "
+        "different cost) sequential vs 2/4(/8/16) workers vs file based: synthetic data, fields, "
+        "misfit, gradient, J v bit-identical; slots checked against their own task; file names and "
+        "task list vs model.",
+   design='§4 C11',
+   note=TB % 'c11' + "Modelled not verified: ProcessPoolExecutor.map / tqdm process_map "
+        "(order-preserving map: assumption, monitored); OS scheduling (orders forced and observed); "
+        "pickling fidelity (C17).",
+   technique='Lean 4 permutation theorem on the collector + slot lemma; latency-forced trace correspondence; bit-identity across execution settings'),
  'C12': dict(
    text="Proof (Lean 4) about the cache model SimM of Simulation (stored fields and synthetic data "
         "per source-frequency pair, computed flag, cached misfit/gradient, stored residual incl. the "
